@@ -261,6 +261,7 @@ public:
     json::Array PT;
     for (const ParmVarDecl *P : FD->parameters()) PT.push_back(typeId(P->getType()));
     O["pt"] = std::move(PT);
+    O["rt"] = typeId(FD->getReturnType());
     if (FD->isNoReturn()) O["noret"] = true;
   }
 
